@@ -31,6 +31,7 @@ func main() {
 		symTo := fs.Int("to", 0, "symbolic window end")
 		policy := fs.String("policy", "", "baseline policy")
 		prof := fs.String("cpuprofile", "", "write cpu profile")
+		race := fs.Bool("race", false, "happens-before race detection")
 		fs.Parse(os.Args[3:])
 		if *prof != "" {
 			f, _ := os.Create(*prof)
@@ -44,6 +45,7 @@ func main() {
 		}
 		spec := HarnessSpec{Name: os.Args[2], Func: os.Args[2], Pkg: *pkg, Int: *intMode, Unwind: *unwind, Steps: *steps, Symbolic: *symb, TimeoutMs: *to, Solver: *solver, NoPrune: *noprune}
 		spec.SymFrom, spec.SymTo, spec.Policy = *symFrom, *symTo, *policy
+		spec.Race = *race
 		if *params != "" {
 			spec.Params = map[string]int64{}
 			for _, kv := range strings.Split(*params, ",") {
